@@ -220,7 +220,8 @@ class C16(Campaign):
                    "equals a callback name of the victim class)", "neighbour-definition@op (look-alike class: same class / "
                    "method / variable names)", "neighbour-definition@op (subclass adding transitions from inherited states)",
                    "second instance of the same class interleaved", "neighbour driven between two events",
-                   "instances of one class whose listener objects carry different instance-level callbacks"]
+                   "instances of one class whose listener objects carry different instance-level callbacks",
+                   "instance of the same class built without the model / listeners that provide its callback names"]
     rule = ("one run = 2-4 programs in one process (unrelated, look-alike in another module, subclass extending "
             "inherited states, second instance of the same class) whose define / instantiate / send operations are "
             "interleaved by the PRNG; for every instance the projection of the interleaved trace (operation results, "
@@ -279,6 +280,12 @@ class C16(Campaign):
             ops[0]["prog"] = pi
             if is_async:
                 ops[0]["rtc"] = True
+            if p is None and rnd.random() < 0.3:
+                # an instance of the victim class built WITHOUT the user's model and listeners: if the class
+                # refers to names only they provide, the constructor must refuse it (InvalidDefinition) --
+                # whatever other, complete instances of the class exist
+                ops[0]["model"] = False
+                ops[0]["listeners"] = []
             st = []
             if p is not None and i > 0:
                 pr["deferred"] = True
